@@ -221,6 +221,24 @@ def run(ctx):
             missing = [ch for ch in letters if not re.search(r"(?<![A-Za-z])" + ch + r"(?![A-Za-z])", sp["v"])]
             if missing:
                 oracle_fail.append({"why": "well-formed curried intent: referenced argument(s) " + ",".join(missing) + " not spoken", "intent": s, "speech": sp["v"], "lines": pre_ign + lines})
+    # ---- an illegal intent value on a REFERENCED argument is an illegal intent value too: reported under Error, ignored under IgnoreIntent
+    ref_x = "<math><mrow intent='f($a)'><mi arg='a' intent='%s'>x</mi><mo>+</mo><mi>y</mi></mrow></math>"
+    # (ignored = spoken as with THAT attribute removed: the legal intent around it still applies)
+    plain_xy = im.run([{"op": "session"}] + pre_ign + [{"op": "set_mathml", "xml": "<math><mrow intent='f($a)'><mi arg='a'>x</mi><mo>+</mo><mi>y</mi></mrow></math>"}, {"op": "speech"}])[-1]
+    n_refarg = 0
+    for inner in ["bar junk(", "g(", "1 2", "a b", "g($a))", "h(,)", "k :"]:
+        lines = [{"op": "set_mathml", "xml": ref_x % inner}, {"op": "speech"}]
+        sp_e = im.run([{"op": "session"}] + pre_err + lines)[-1]
+        sp_i = im.run([{"op": "session"}] + pre_ign + lines)[-1]
+        n_refarg += 1
+        for r_ in (sp_e, sp_i):
+            if r_.get("r") in ("panic", "abort", "timeout"):
+                panics.append({"intent": "f($a) over arg intent " + inner, "reply": r_, "lines": lines})
+        if sp_e.get("r") == "ok":
+            oracle_fail.append({"why": "IntentErrorRecovery=Error but speech succeeded although a referenced argument carries an illegal intent value", "intent": inner, "speech": sp_e.get("v"), "lines": pre_err + lines})
+        if sp_i.get("r") != "ok" or (plain_xy.get("r") == "ok" and sp_i.get("v") != plain_xy.get("v")):
+            oracle_fail.append({"why": "IgnoreIntent: an illegal intent value on a referenced argument is not ignored (speech is not the speech without that attribute)", "intent": inner,
+                                "got": sp_i.get("v", sp_i.get("msg", ""))[:200], "expected": plain_xy.get("v"), "lines": pre_ign + lines})
     # ---- argument scope: a reference is looked up among the descendants, but not inside a child that carries an intent of its own or
     # another arg; a reference that can only be found there is an error (ignored or reported as configured)
     inner = "<mi arg='x'>x</mi><mo>+</mo><mi arg='y'>y</mi>"
@@ -254,7 +272,7 @@ def run(ctx):
     im.close()
     mo.close()
     ctx.coverage.update({
-        "argument_scope_cases": n_scope, "curried_applications": n_curried,
+        "argument_scope_cases": n_scope, "curried_applications": n_curried, "illegal_intent_on_referenced_argument": n_refarg,
         "evaluations": len(cases) + n_scope, "distinct_nontrivial": len(productions),
         "rule": "grammar-generated, mutated, property-only and arbitrary-Unicode intent strings on an mrow with three arg children (two leaves, one fraction), both recovery settings; "
                 "accept/reject and intent-tree shape compared with the model; distinct = distinct accepted parse trees (model)",
